@@ -909,3 +909,59 @@ def annot(tier, seed, ci, nc, count=4000):
 
 
 STREAMS['annot'] = annot
+
+
+# ----------------------------------------------------------------------------- declared forwarding, really executed (C04)
+def declfwd(tier, seed, ci, nc, count=600):
+    """wrapper/inner pairs from the universe declared with forwards_to_function / _method / _super /
+    apply_forwards_to_super, on ordinary and falsy receivers"""
+    from . import real_decl
+    rng = _rng(seed, 'declfwd', ci)
+    outers = [s for s in U('ab', 2) if any(p[1] == 'vp' for p in s) or any(p[1] == 'vk' for p in s)]
+    inners = U('xy', 2)
+    for k in range(count // nc):
+        o = rng.choice(outers)
+        i = rng.choice(inners)
+        form = real_decl.FORMS[k % 4]
+        recv = rng.choice(real_decl.RECEIVERS) if form != 'function' else 'plain'
+        npos = sum(1 for p in i if p[1] in ('po', 'pk'))
+        n = rng.choice([0, 0, 0, 1, min(npos, 2)])
+        kwp = [p[0] for p in i if p[1] in ('pk', 'ko')]
+        nm = tuple(rng.sample(kwp, rng.randint(0, min(1, len(kwp))))) if rng.random() < 0.4 else ()
+        part = rng.random() < 0.1
+        fl = (True, True, False, False, part)
+        yield ('rt:declfwd', form, o, i, n, nm, fl, recv)
+
+
+STREAMS['declfwd'] = declfwd
+
+
+# ----------------------------------------------------------------------------- inputs that already carry provenance (C08)
+def prov_rand(tier, seed, ci, nc, count=20000):
+    """merge / embed / forwards / mask on inputs whose provenance is not the default one: several callables per
+    parameter and depth maps in which one callable sits at different depths in different inputs (what results of
+    earlier operations look like: a callable reached twice along chains of different length)"""
+    rng = _rng(seed, 'prov_rand', ci)
+
+    def sig(i):
+        ps = core.rand_sig(rng, list('abxy'), 3, p_star=0.7)
+        fns = rng.sample([1, 2, 3, 4, 5], rng.randint(1, 3))
+        src = {p[0]: rng.sample(fns, rng.randint(1, len(fns))) for p in ps}
+        depths = {f: rng.randint(0, 3) for f in fns}
+        return D(ps, fn=fns[0], src=src, depths=depths)
+    for _ in range(count // nc):
+        r = rng.random()
+        if r < 0.4:
+            yield ('merge', [sig(i) for i in range(rng.choice([2, 2, 3]))])
+        elif r < 0.8:
+            yield ('embed', int(rng.random() < 0.85), int(rng.random() < 0.85), [sig(i) for i in range(rng.choice([2, 2, 3]))])
+        elif r < 0.9:
+            i = sig(0)
+            nm = tuple(rng.sample(_named(i['params']) + ['zz'], rng.randint(0, 1)))
+            yield ('forwards', rng.choice([0, 0, 1]), nm, (False, False, True, True, rng.random() < 0.2), sig(1), i)
+        else:
+            d = sig(0)
+            yield ('mask', rng.choice([0, 1, 2]), (), (False, False, False, False), d)
+
+
+STREAMS['prov_rand'] = prov_rand
